@@ -2,6 +2,7 @@ import PV.Model.Eval
 import PV.Model.Ops
 import PV.Model.Traverse
 import PV.Driver.GAOps
+import PV.Driver.C13GroupOps
 import PV.Driver.MatchpyOps
 import PV.Driver.CseTallyOps
 import PV.Driver.NodeCountOps
@@ -212,6 +213,7 @@ def handlers : List (Sexp → Option Sexp) :=
    , handleNodeCount
    , handleCseTally
    , handleMatchpy
+   , handleC13Groups
    -- HANDLERS
   ]
 
